@@ -229,7 +229,7 @@ func droppedByFlushAll(s *session, toks []string, acceptedStep map[string]int, b
 func checkC17(run *rt.Run, cfg gconfig, h []gstep, probe bool) bool {
 	s := newSession(cfg)
 	m := &gmodel{cfg: cfg}
-	ids := []string{"a", "b", "c"}
+	ids := []string{"a", "b", "c", "d", "e", "f"}
 	wit := func(i int, extra string) any {
 		var rs []string
 		for k, r := range s.res {
